@@ -63,6 +63,11 @@ type scenario struct {
 	roF, roK   int // reorg: roK empty blocks on top of main height roF (roK = 0: none)
 	fwd        int // empty blocks mined on top of the tip AFTER the pool was filled
 	admPre     bool // real pool filled BEFORE the reorganisation (and not told about it)
+	// op "two": template A from the first ka transactions (rev: from all), then template B from
+	// all (rev: from the first ka); conc: both generated concurrently
+	ka        int
+	rev, conc bool
+	two       bool
 	now        int64
 	addr       bool
 	upd        bool // connect the time/extra-nonce updated block instead of the original one
@@ -132,8 +137,13 @@ func (t txSpec) String() string {
 
 func (s *scenario) line() string {
 	var b strings.Builder
-	fmt.Fprintf(&b, "C12 tmpl w=%d ro=%d:%d fwd=%d adm=%s now=%d addr=%s upd=%s pb=%s src=%s pol=%d:%d:%d:%d h=%d mtp=%d seg=%s csv=%s cbw=%d cbs=%d hv=%d mat=%d",
-		s.world, s.roF, s.roK, s.fwd, b2s(s.admPre), s.now, b2s(s.addr), b2s(s.upd), b2s(s.pb), s.src, s.minW, s.maxW, s.prioSize, s.minFree,
+	if s.two {
+		fmt.Fprintf(&b, "C12 two ka=%d rev=%s conc=%s w=%d", s.ka, b2s(s.rev), b2s(s.conc), s.world)
+	} else {
+		fmt.Fprintf(&b, "C12 tmpl w=%d", s.world)
+	}
+	fmt.Fprintf(&b, " ro=%d:%d fwd=%d adm=%s now=%d addr=%s upd=%s pb=%s src=%s pol=%d:%d:%d:%d h=%d mtp=%d seg=%s csv=%s cbw=%d cbs=%d hv=%d mat=%d",
+		s.roF, s.roK, s.fwd, b2s(s.admPre), s.now, b2s(s.addr), b2s(s.upd), b2s(s.pb), s.src, s.minW, s.maxW, s.prioSize, s.minFree,
 		s.nextH, s.mtp, b2s(s.seg), b2s(s.csv), s.cbw, s.cbs, s.halving, s.maturity)
 	for _, t := range s.txs {
 		b.WriteString(" tx=")
@@ -255,6 +265,13 @@ func parseScenario(f []string) *scenario {
 			s.roF, s.roK = int(pint(g[0])), int(pint(g[1]))
 		case "adm":
 			s.admPre = v == "1"
+		case "ka":
+			s.ka = int(pint(v))
+			s.two = true
+		case "rev":
+			s.rev = v == "1"
+		case "conc":
+			s.conc = v == "1"
 		case "fwd":
 			s.fwd = int(pint(v))
 		case "now":
